@@ -121,12 +121,14 @@ class IpmbHeaderRsp(IpmbHeader):
         self.cmdid = data[5]
 
     def from_req_header(self, req_header):
-        self.rs_lun = req_header.rq_lun
-        self.rs_sa = req_header.rq_sa
+        # requester and responder keep their roles (encode() puts the
+        # requester first), the response netfn is the request's plus one
+        self.rs_lun = req_header.rs_lun
+        self.rs_sa = req_header.rs_sa
         self.rq_seq = req_header.rq_seq
-        self.rq_lun = req_header.rs_lun
-        self.rq_sa = req_header.rs_sa
-        self.netfn = req_header.netfn
+        self.rq_lun = req_header.rq_lun
+        self.rq_sa = req_header.rq_sa
+        self.netfn = req_header.netfn | 1
         self.cmdid = req_header.cmdid
 
 
